@@ -31,32 +31,27 @@ func (c *Ctx) ruleBinarySearch(rule string) {
 	}
 	x := c.Index(f)
 	re, sal := ssa.Value(f.Params[0]), ssa.Value(f.Params[1])
+	// the two bounds are the variables compared by the loop condition `low <= high` (found by role, not by name)
 	var low, high *ssa.Alloc
-	eachInstr(f, func(in ssa.Instruction) {
-		if al, ok := in.(*ssa.Alloc); ok {
-			switch al.Comment {
-			case "low":
-				low = al
-			case "high":
-				high = al
-			}
-		}
-	})
-	if low == nil || high == nil {
-		c.Check(rule, "BinarySearch#variables", false, f.Pos(), "low / high not found")
-		return
-	}
-	// loop condition low <= high
 	okCond := false
 	loops := x.Loops(f)
 	if len(loops) == 1 {
 		for _, in := range loops[0].Head.Instrs {
 			if iff, ok := in.(*ssa.If); ok {
-				if bo, ok := iff.Cond.(*ssa.BinOp); ok && bo.Op == token.LEQ && x.Cell(bo.X) == low && x.Cell(bo.Y) == high {
-					okCond = true
+				if bo, ok := iff.Cond.(*ssa.BinOp); ok && x.Cell(bo.X) != nil && x.Cell(bo.Y) != nil {
+					switch bo.Op {
+					case token.LEQ:
+						low, high, okCond = x.Cell(bo.X), x.Cell(bo.Y), true
+					case token.GEQ:
+						low, high, okCond = x.Cell(bo.Y), x.Cell(bo.X), true
+					}
 				}
 			}
 		}
+	}
+	if low == nil || high == nil {
+		c.Check(rule, "BinarySearch#loop-condition", false, f.Pos(), "the search loop must run while low <= high over two local bounds")
+		return
 	}
 	c.Check(rule, "BinarySearch#loop-condition", okCond, f.Pos(), "the search must run while low <= high")
 	// mid = (low+high)/2, probe re[mid].Salience
@@ -206,23 +201,79 @@ func (c *Ctx) mergeModel(rule string, f *ssa.Function) *mergeSummary {
 		b, is := x.isFieldLoad(v, "RuleEntity", field)
 		return is && isV(b)
 	}
-	// the working locals
+	// the working locals, found by role (not by name): the name map is the local map looked up with the
+	// new rule's name k; the lists are the local rule slices searched by BinarySearch or stored to in the
+	// loop; the index is the local map[string]int looked up with v.RuleName
 	var mapCell, idxCell *ssa.Alloc
 	var listCells []*ssa.Alloc
-	eachInstr(f, func(in ssa.Instruction) {
-		al, ok := in.(*ssa.Alloc)
-		if !ok {
+	addList := func(a *ssa.Alloc) {
+		if a == nil {
 			return
 		}
-		switch al.Comment {
-		case "newRuleEntities":
-			mapCell = al
-		case "newSortRulesIndexMap":
-			idxCell = al
-		case "newSortRules":
-			listCells = append(listCells, al)
+		for _, l := range listCells {
+			if l == a {
+				return
+			}
+		}
+		listCells = append(listCells, a)
+	}
+	eachInstr(f, func(in ssa.Instruction) {
+		if !L.Blocks[in.Block()] {
+			return
+		}
+		switch t := in.(type) {
+		case *ssa.Lookup:
+			cell := x.Cell(t.X)
+			if cell == nil {
+				return
+			}
+			if t.CommaOk && isK(t.Index) && mapCell == nil {
+				mapCell = cell
+			}
+			if mt, ok := t.X.Type().Underlying().(*types.Map); ok && !t.CommaOk {
+				if b, ok := mt.Elem().Underlying().(*types.Basic); ok && b.Kind() == types.Int && vField(t.Index, "RuleName") && idxCell == nil {
+					idxCell = cell
+				}
+			}
+		case *ssa.Call:
+			if calleeIs(t, pTool, "", "BinarySearch") {
+				addList(x.Cell(t.Call.Args[0]))
+			}
+		case *ssa.Store:
+			if cell, ok := x.ResolveAddr(t.Addr).(*ssa.Alloc); ok {
+				if sl, ok := cell.Type().(*types.Pointer).Elem().Underlying().(*types.Slice); ok && structName(sl.Elem()) == "RuleEntity" {
+					if _, isApp := builtinCall(t.Val, "append"); isApp {
+						addList(cell)
+					}
+				}
+			}
+			if ia, ok := t.Addr.(*ssa.IndexAddr); ok {
+				if sl, ok := ia.X.Type().Underlying().(*types.Slice); ok && structName(sl.Elem()) == "RuleEntity" {
+					addList(x.Cell(ia.X))
+				}
+			}
 		}
 	})
+	// a single-element helper slice ([]*RuleEntity{v}) is not a working list
+	{
+		var keep []*ssa.Alloc
+		for _, l := range listCells {
+			helper := len(x.stores[l]) > 0
+			for _, st := range x.stores[l] {
+				if _, isSl := x.Origin(st.Val).(*ssa.Slice); !isSl {
+					helper = false
+				} else if sl := x.Origin(st.Val).(*ssa.Slice); true {
+					if _, isArr := sl.X.(*ssa.Alloc); !isArr {
+						helper = false
+					}
+				}
+			}
+			if !helper {
+				keep = append(keep, l)
+			}
+		}
+		listCells = keep
+	}
 	isListCell := func(a *ssa.Alloc) bool {
 		for _, l := range listCells {
 			if l == a {
@@ -232,7 +283,7 @@ func (c *Ctx) mergeModel(rule string, f *ssa.Function) *mergeSummary {
 		return false
 	}
 	if mapCell == nil || idxCell == nil || len(listCells) == 0 {
-		c.Check(rule, key+"#working-copies", false, f.Pos(), "working copies (newRuleEntities, newSortRules, newSortRulesIndexMap) not found")
+		c.Check(rule, key+"#working-copies", false, f.Pos(), "working copies (a local name map looked up by the new rule's name, a local sorted list, a local name->position index) not found")
 		return sum
 	}
 	outer := listCells[0]
@@ -678,10 +729,17 @@ func (c *Ctx) ruleFullBuildAndRemoval(rule string) {
 	if f := c.MustFn(rule, "builder", "RuleBuilder", "RemoveRules"); f != nil {
 		x := c.Index(f)
 		// keep entity iff no given name equals its name
+		// the keep-flag is the local bool tested where an old entry is copied into the new map (by role)
 		var flag *ssa.Alloc
 		eachInstr(f, func(in ssa.Instruction) {
-			if al, ok := in.(*ssa.Alloc); ok && al.Comment == "flag" {
-				flag = al
+			if mu, ok := in.(*ssa.MapUpdate); ok {
+				if _, _, isR := x.rangedMap(mu.Value); isR {
+					for _, g := range x.GuardsOf(mu.Block()) {
+						if cell := x.Cell(g.Cond); cell != nil && isBoolType(cell.Type().(*types.Pointer).Elem()) {
+							flag = cell
+						}
+					}
+				}
 			}
 		})
 		okKeep := false
